@@ -15,9 +15,9 @@ struct GPoly {                             // the polygon as handed to the libra
     double clat = 0, clng = 0;             // construction centre (for the unwrapped frame and candidate enumeration)
     int shape = 0, loc = 0;                // generator arms (classification)
 };
-static const char *SHAPE_NAME[] = {"convex-ish", "concave-star", "needle", "tiny(<1 cell)", "large", "triangle/quad", "wide-band(>180deg)"};
-static const char *LOC_NAME[] = {"uniform", "pentagon", "antimeridian", "high-latitude", "icosahedron-edge", "southern", "coarse-ancestor-corner", "ancestor-bbox-extreme-descendant"};
-enum { NSHAPE = 7, NLOC = 8 };
+static const char *SHAPE_NAME[] = {"convex-ish", "concave-star", "needle", "tiny(<1 cell)", "large", "triangle/quad", "wide-band(>180deg)", "comb(thin slits)"};
+static const char *LOC_NAME[] = {"uniform", "pentagon", "antimeridian", "high-latitude", "icosahedron-edge", "southern", "coarse-ancestor-corner", "ancestor-bbox-extreme-descendant", "polar-cap(any distance from a pole)"};
+enum { NSHAPE = 8, NLOC = 9 };
 
 inline std::string serLoop(const std::vector<LatLng> &l) {
     std::string s;
@@ -174,10 +174,10 @@ inline int inPoly(const QPoly &q, P2 p, Q margin) {
 // ---------------------------------------------------------------- generator
 // star-shaped outer loop in the local tangent plane, mapped by a linear map (rotation, squash) and the 1/cos(lat) longitude
 // scaling: simplicity carries over. 0..3 star-shaped holes in disjoint discs inside the inscribed disc.
-inline GPoly drawPoly(int res, int maxCells, bool allowHoles, int forceShape = -1, int forceLoc = -1) {
+inline GPoly drawPoly(int res, int maxCells, bool allowHoles, int forceShape = -1, int forceLoc = -1, bool allowPolarCap = false) {
     using namespace vh;
     GPoly g;
-    g.loc = forceLoc >= 0 ? forceLoc : rpick({4, 3, 3, 2, 2, 2, 3, (res >= 1 ? 3 : 0)});
+    g.loc = forceLoc >= 0 ? forceLoc : rpick({4, 3, 3, 2, 2, 2, 3, (res >= 1 ? 3 : 0), (allowPolarCap ? 2 : 0)});
     int forcedShape = -1;
     LatLng c;
     switch (g.loc) {
@@ -217,12 +217,17 @@ inline GPoly drawPoly(int res, int maxCells, bool allowHoles, int forceShape = -
             if (rpick({2, 1}) == 0) forcedShape = rpick({1, 1}) ? 3 : 5;  // tiny / triangle around that cell
             break;
         }
+        case 8: {  // next to a pole, at any distance from it (1e-3 .. 0.09 rad, log-uniform); the polygon never contains the pole
+            c.lat = (ri(0, 1) ? 1 : -1) * (gen::PI / 2 - gen::logU(1e-3, 0.09));
+            c.lng = (2 * runit() - 1) * gen::PI;
+            break;
+        }
         default: c = gen::pointUniform(); break;
     }
-    if (fabs(c.lat) > 1.48) c.lat = c.lat > 0 ? 1.48 : -1.48;
+    if (g.loc != 8 && fabs(c.lat) > 1.48) c.lat = c.lat > 0 ? 1.48 : -1.48;
     g.clat = c.lat;
     g.clng = c.lng;
-    g.shape = forceShape >= 0 ? forceShape : forcedShape >= 0 ? forcedShape : rpick({3, 3, 3, 2, 2, 1, (res <= 3 ? 2 : 0)});
+    g.shape = forceShape >= 0 ? forceShape : forcedShape >= 0 ? forcedShape : rpick({3, 3, 3, 2, 2, 1, (res <= 3 && g.loc != 8 ? 2 : 0), 2});
     if (g.shape == 6) {
         // band wider than 180 degrees of longitude built from edges of < 60 degrees: top chain eastwards, bottom chain back
         double span = (200 + 140 * runit()) * gen::PI / 180, a = (2 * runit() - 1) * gen::PI;
@@ -248,11 +253,12 @@ inline GPoly drawPoly(int res, int maxCells, bool allowHoles, int forceShape = -
         case 3: Rcells = 0.05 + runit() * 0.4; break;
         case 4: Rcells = std::sqrt((double)maxCells) * (0.3 + 0.3 * runit()); break;
         case 2: Rcells = 1.5 + runit() * 9; break;
+        case 7: Rcells = 2 + runit() * std::min(9.0, std::sqrt((double)maxCells) * 0.3); break;
         default: Rcells = 0.6 + runit() * std::min(8.0, std::sqrt((double)maxCells) * 0.3); break;
     }
     double R = Rcells * w;
     // keep the polygon well inside the lat/lng chart: no pole, total longitude span < pi
-    double maxR = std::min(1.5 - fabs(c.lat), 1.2 * std::cos(c.lat)) * 0.8;
+    double maxR = std::min((g.loc == 8 ? gen::PI / 2 - 3e-4 : 1.5) - fabs(c.lat), 1.2 * std::cos(c.lat)) * 0.8;
     if (R > maxR) R = maxR;
     int n = g.shape == 5 ? ri(3, 4) : g.shape == 2 ? ri(3, 8) : ri(3, 14);
     int nholes = (allowHoles && n >= 6 && g.shape != 2 && g.shape != 5) ? rpick({3, 2, 1, 1}) : 0;
@@ -282,6 +288,29 @@ inline GPoly drawPoly(int res, int maxCells, bool allowHoles, int forceShape = -
         if (p.lng < -gen::PI) p.lng += 2 * gen::PI;
         return p;
     };
+    if (g.shape == 7) {
+        // comb: a rectangle with 1..4 slits cut in from one side, each 0.05..0.9 cell wide — a concave outer loop whose exterior passes
+        // BETWEEN the vertices of a cell (and between the corners of a coarse cell's bounding box)
+        double hh = 0.45 + 0.5 * runit(), hw = 0.9;
+        int m = ri(1, 4);
+        double Rc = R / w;  // polygon half-size in cells
+        std::vector<LatLng> o;
+        o.push_back(mapPt(-hw, -hh));
+        o.push_back(mapPt(hw, -hh));
+        o.push_back(mapPt(hw, hh));
+        for (int j = m - 1; j >= 0; j--) {
+            double x = -hw + 2 * hw * (j + 0.3 + 0.4 * runit()) / m;
+            double sw = std::min(0.9 * hw / m, (0.05 + 0.85 * runit()) / std::max(Rc, 1e-9)) / 2;  // half slit width
+            double d = 2 * hh * (0.3 + 0.6 * runit());
+            o.push_back(mapPt(x + sw, hh));
+            o.push_back(mapPt(x + sw, hh - d));
+            o.push_back(mapPt(x - sw, hh - d));
+            o.push_back(mapPt(x - sw, hh));
+        }
+        o.push_back(mapPt(-hw, hh));
+        g.outer = o;
+        return g;
+    }
     for (int i = 0; i < n; i++) g.outer.push_back(mapPt(rad[i] * std::cos(ang[i]), rad[i] * std::sin(ang[i])));
     if (nholes) {
         double rin = rmin * std::cos(std::min(maxgap / 2, 1.5));  // inscribed disc of the outer star
